@@ -190,7 +190,10 @@ pub fn run_query(an: &Analysis, q: Q, file: FileId, off: u32) -> Ans {
 
 /// Token boundaries of a text (starts of all tokens, plus the end), deduplicated.
 pub fn token_boundaries(text: &str) -> Vec<u32> {
-    let mut v: Vec<u32> = syntax::lexer::GleamLexer::new(text).map(|t| u32::from(t.range.start())).collect();
+    // the lexer is part of the subject: if it panics on this text the queries below will say
+    // so; the offsets then fall back to every character boundary
+    let mut v: Vec<u32> = crate::core::catch(|| syntax::lexer::GleamLexer::new(text).map(|t| u32::from(t.range.start())).collect::<Vec<u32>>())
+        .unwrap_or_else(|_| (0..text.len()).filter(|&i| text.is_char_boundary(i)).map(|i| i as u32).collect());
     v.push(text.len() as u32);
     v.push(0);
     v.sort();
@@ -208,12 +211,16 @@ pub fn tok_bounds(files: &[FileInfo]) -> TokBounds {
     files
         .iter()
         .map(|f| {
-            let mut starts = vec![];
-            let mut ends = vec![];
-            for t in syntax::lexer::GleamLexer::new(&f.text) {
-                starts.push(u32::from(t.range.start()) as usize);
-                ends.push(u32::from(t.range.end()) as usize);
-            }
+            let (starts, ends) = crate::core::catch(|| {
+                let mut starts = vec![];
+                let mut ends = vec![];
+                for t in syntax::lexer::GleamLexer::new(&f.text) {
+                    starts.push(u32::from(t.range.start()) as usize);
+                    ends.push(u32::from(t.range.end()) as usize);
+                }
+                (starts, ends)
+            })
+            .unwrap_or_default();
             (f.id, starts, ends)
         })
         .collect()
